@@ -371,6 +371,50 @@ pub fn run_sharing(h: &Hist, cache_bytes: u64, fdt: u8, n: usize, root: &Path) -
     }
 }
 
+/// Sharing runs execute in a fresh process so that the trees get the ids 0, 1, 2 - the same
+/// small numbers their table ids have (mirrored (tree, table) pairs are the collision-prone case).
+pub fn share_worker_main(arg: &str) -> i32 {
+    #[derive(Deserialize)]
+    struct J {
+        hist: Hist,
+        cache: u64,
+        fdt: u8,
+        n: usize,
+        root: String,
+    }
+    let j: J = match serde_json::from_str(&std::fs::read_to_string(arg).unwrap_or_default()) {
+        Ok(j) => j,
+        Err(e) => {
+            println!("HARNESS bad job {e}");
+            return 2;
+        }
+    };
+    match run_sharing(&j.hist, j.cache, j.fdt, j.n, Path::new(&j.root)) {
+        Ok(()) => println!("OK"),
+        Err((sig, msg)) => println!("VIOL {}", serde_json::to_string(&(sig, msg)).unwrap()),
+    }
+    0
+}
+
+pub fn run_sharing_subprocess(h: &Hist, cache: u64, fdt: u8, n: usize, root: &Path) -> Result<(), (String, String)> {
+    crate::hx::fresh_dir(root);
+    let job = root.join("job.json");
+    let trees = root.join("trees");
+    std::fs::write(&job, serde_json::to_string(&serde_json::json!({"hist": h, "cache": cache, "fdt": fdt, "n": n, "root": trees.to_string_lossy()})).unwrap()).map_err(|e| ("HARNESS".to_string(), e.to_string()))?;
+    let exe = std::env::current_exe().map_err(|e| ("HARNESS".to_string(), e.to_string()))?;
+    let out = std::process::Command::new(exe).arg("cfgmc-share").arg(&job).output().map_err(|e| ("HARNESS".to_string(), e.to_string()))?;
+    let so = String::from_utf8_lossy(&out.stdout);
+    if so.lines().any(|l| l == "OK") {
+        return Ok(());
+    }
+    if let Some(v) = so.lines().find_map(|l| l.strip_prefix("VIOL ")) {
+        if let Ok((sig, msg)) = serde_json::from_str::<(String, String)>(v) {
+            return Err((sig, msg));
+        }
+    }
+    Err(("shared:worker-died".to_string(), format!("sharing run ended without a verdict (exit {:?}): {}", out.status.code(), so.chars().take(200).collect::<String>())))
+}
+
 pub struct Outcome {
     pub configs: u64,
     pub histories: u64,
@@ -454,7 +498,7 @@ pub fn run(tier: &str, threads: usize, max_wall_s: f64) -> Outcome {
             runs.fetch_add(1, Ordering::Relaxed);
             match &work[i] {
                 W::Share(hi, cache, fdt, n) => {
-                    if let Err((sig, msg)) = run_sharing(&hs[*hi], *cache, *fdt, *n, &dir) {
+                    if let Err((sig, msg)) = run_sharing_subprocess(&hs[*hi], *cache, *fdt, *n, &dir) {
                         found.lock().unwrap().push(CfgReplay { engine: "cfgmc".into(), property: "C11".into(), hist: hs[*hi].clone(), dims: None, sharing: Some((*cache, *fdt, *n)), sig, msg: format!("history {}: {msg}", hs[*hi].name) });
                     }
                 }
@@ -512,7 +556,7 @@ pub fn replay(rp: &CfgReplay) -> Vec<(String, String)> {
     crate::hx::fresh_dir(&root);
     let mut out = vec![];
     if let Some((cache, fdt, n)) = rp.sharing {
-        if let Err(e) = run_sharing(&rp.hist, cache, fdt, n, &root) {
+        if let Err(e) = run_sharing_subprocess(&rp.hist, cache, fdt, n, &root) {
             out.push(e);
         }
     } else if let Some(d) = rp.dims {
